@@ -332,6 +332,19 @@ func (f *Frame) havocItem(env *SpecEnv, st *State, con *Contract, callee *ssa.Fu
 		f.unsupported("%v", err)
 	}
 	// evaluate the designator (without [*] / *) to get the object reference
+	if gd, argText := c.eng.ghostOf(item); gd != nil {
+		ex, perr := parseSpec(argText)
+		if perr != nil {
+			f.unsupported("modifies %q: %v", item, perr)
+		}
+		e2 := env.clone()
+		e2.st = st
+		obj := e2.eval(ex)
+		k := c.ghostKey(gd, e2)
+		c.havocSeq++
+		fresh := c.declare(fmt.Sprintf("hv%d_%s", c.havocSeq, k.Name), c.so.sortOf(e2.lookupType(gd.ResType)))
+		return st.set(k, fmt.Sprintf("(store %s %s %s)", st.get(k), c.termOf(obj), fresh))
+	}
 	des := strings.TrimSuffix(item, "[*]")
 	rbase, rlo, rhi, isRange := splitModRange(item)
 	if isRange {
